@@ -15,7 +15,9 @@ Section Mapping.
   | OGet (k : str) | OSet (k : str) (v : V) | ODel (k : str)
   | OContains (k : str) | OLen | OIter | OToDict
   (* the other ways of writing into a MutableMapping (collections.abc mix-ins over the three primitives) *)
-  | OUpdate (items : list (str * V)) | OSetDefault (k : str) (v : V) | OPop (k : str) | OPopDefault (k : str) (v : V) | OClear.
+  | OUpdate (items : list (str * V)) | OSetDefault (k : str) (v : V) | OPop (k : str) | OPopDefault (k : str) (v : V) | OClear
+  (* reading with a default: get(k, v) *)
+  | OGetDefault (k : str) (v : V).
 
   Inductive obs :=
   | ObsVal (v : V) | ObsKeyError | ObsNone | ObsBool (b : bool) | ObsLen (n : nat)
@@ -48,6 +50,7 @@ Section Mapping.
                          | None => (d, ObsVal v)
                          end
     | OClear => ([], ObsNone)
+    | OGetDefault k v => (d, ObsVal (match dict_get (lower k) d with Some x => x | None => v end))
     end.
 
   (* the same operation on a plain dict, the key already lower-cased *)
@@ -77,6 +80,7 @@ Section Mapping.
                          | None => (d, ObsVal v)
                          end
     | OClear => ([], ObsNone)
+    | OGetDefault k v => (d, ObsVal (match dict_get k d with Some x => x | None => v end))
     end.
 
   Definition lower_op (o : op) : op :=
@@ -85,6 +89,7 @@ Section Mapping.
     | OContains k => OContains (lower k)
     | OUpdate items => OUpdate (map (fun kv => (lower (fst kv), snd kv)) items)
     | OSetDefault k v => OSetDefault (lower k) v | OPop k => OPop (lower k) | OPopDefault k v => OPopDefault (lower k) v
+    | OGetDefault k v => OGetDefault (lower k) v
     | o => o
     end.
 
@@ -101,7 +106,7 @@ End Mapping.
 
 Arguments OGet {V}. Arguments OSet {V}. Arguments ODel {V}. Arguments OContains {V}.
 Arguments OLen {V}. Arguments OIter {V}. Arguments OToDict {V}.
-Arguments OUpdate {V}. Arguments OSetDefault {V}. Arguments OPop {V}. Arguments OPopDefault {V}. Arguments OClear {V}.
+Arguments OUpdate {V}. Arguments OSetDefault {V}. Arguments OPop {V}. Arguments OPopDefault {V}. Arguments OClear {V}. Arguments OGetDefault {V}.
 
 (* "k: v" strings: s.partition(': ') *)
 Definition item_of_string (s : str) : str * str :=
